@@ -993,6 +993,16 @@ func genPinned(emit func(Case)) {
 			}
 		}
 	}
+	// shifts and rotates where the reference refuses (negative left operand, counts outside 0..63): literal and variable count
+	for _, a := range []string{"-8", "-1", "-9223372036854775807", "5", "9223372036854775807"} {
+		for _, op := range []string{">>=", "<<=", "rol=", "ror="} {
+			for _, b := range []string{"0", "1", "3", "63", "64", "65", "70", "-1", "-130"} {
+				key := fmt.Sprintf("INTEGER %s %s INTEGER %s", a, op, b)
+				pr := fmt.Sprintf("sub probe {\n  declare local var.t INTEGER;\n  declare local var.u INTEGER;\n  declare local var.o INTEGER;\n  set var.t = %s;\n  set var.u = %s;\n  set var.o = %s;\n  set var.t %s var.o;\n  set var.u %s %s;\n  log \"r=\" var.t;\n  log \"l=\" var.u;\n  log \"o=\" var.o;\n  if (var.t < 0) { log \"neg\"; } else { log \"nonneg\"; }\n}\n", a, a, b, op, op, b)
+				emit(Case{Kind: "pinned", Probe: pr, Pin: key, Class: "pinned INTEGER " + op + " INTEGER"})
+			}
+		}
+	}
 }
 
 var (
